@@ -60,7 +60,7 @@ BOOL_DTYPES = {"torch.bool"}
 
 
 class NpSym:
-    def __init__(self, repo, stubs: Optional[Dict[str, Callable]] = None, max_steps: int = 2_000_000):
+    def __init__(self, repo, stubs: Optional[Dict[str, Callable]] = None, max_steps: int = 2_000_000, symbolic_compare: Optional[Callable] = None):
         import numpy as np
         import sympy as sp
         self.np, self.sp = np, sp
@@ -70,6 +70,8 @@ class NpSym:
         self.max_steps = max_steps
         self._glob_cache: Dict[Any, Any] = {}
         self.trace: list = []
+        # symbolic_compare(node) -> bool decides a comparison between symbolic entries (e.g. "generic chart: |w| < eps is False"); None: fail closed
+        self.symbolic_compare = symbolic_compare
 
     # ------------------------------------------------------------------ values
     def num(self, v):
@@ -260,6 +262,16 @@ class _Frame:
             self.stmt(st)
 
     def stmt(self, st):
+        try:
+            return self._stmt(st)
+        except (AnalysisError, _Return, _Break, _Continue, Raised):
+            raise
+        except RecursionError:
+            raise AnalysisError("npsym: recursion limit")
+        except Exception as e:
+            raise AnalysisError(f"npsym: {self.mod.rel}:{getattr(st, 'lineno', '?')} `{norm(st)[:90]}`: {type(e).__name__}: {str(e)[:160]}")
+
+    def _stmt(self, st):
         I = self.I
         I.steps += 1
         if I.steps > I.max_steps:
@@ -413,6 +425,11 @@ class _Frame:
 
     def binop(self, op, a, b, node=None):
         np = self.np
+        if isinstance(op, (ast.BitAnd, ast.BitOr, ast.BitXor)):
+            try:
+                return a & b if isinstance(op, ast.BitAnd) else a | b if isinstance(op, ast.BitOr) else a ^ b
+            except Exception as e:
+                raise AnalysisError(f"npsym: `{norm(node)[:70] if node is not None else op}`: {type(e).__name__}: {e}")
         a, b = self.I._obj(a), self.I._obj(b)
         try:
             if isinstance(op, ast.Add):
@@ -694,6 +711,8 @@ class _Frame:
                     r = f(sp.sympify(x), sp.sympify(y))
                     if r in (True, False, sp.true, sp.false):
                         return bool(r)
+                    if self.I.symbolic_compare is not None:
+                        return bool(self.I.symbolic_compare(node))
                     raise AnalysisError(f"npsym: comparison of symbolic entries in `{norm(node)[:60]}`")
                 return np.vectorize(g, otypes=[bool])(a2, b2)
             return f(a2, b2)
